@@ -2,7 +2,10 @@
 
 package transport
 
-import "crypto/rand"
+import (
+	"crypto/rand"
+	"time"
+)
 
 // White-box access for the verification harness (overlay-injected, never committed to /repo).
 
@@ -90,3 +93,14 @@ func (h *Handle) VerifRecvLen() int {
 // VerifOpen reports whether the client's handshake has succeeded (state open or later closed
 // after having been open is not distinguished: only open counts).
 func (c *Client) VerifOpen() bool { return c.state.Load() == clientStateOpen }
+
+// VerifClientNow is the clock read by the hidden-mode request writer when the check-time
+// source seam is active (see checks.json "rewrites"); it defaults to the real clock.
+var VerifClientNow func() int64
+
+func verifClientNow() int64 {
+	if VerifClientNow != nil {
+		return VerifClientNow()
+	}
+	return time.Now().Unix()
+}
